@@ -110,7 +110,7 @@ def randomwalk(draw, L):
 
 @st.composite
 def case_strategy(draw):
-    L = 10 ** (draw(st.one_of(st.integers(-35, 12), st.integers(-70, -35))) / 10.0) * (1 + 0.1 * draw(G.unitf))     # 1e-7 .. 16 deg
+    L = 10 ** (draw(st.one_of(st.integers(-35, 12), st.integers(-70, -35), st.integers(-35, 19))) / 10.0) * (1 + 0.1 * draw(G.unitf))     # 1e-7 .. 87 deg
     which = draw(st.integers(0, 7))
     if which == 0:
         pts = draw(filaments(L))
@@ -120,8 +120,10 @@ def case_strategy(draw):
         L = max(L, 0.03)        # the default chunk size max(4 L, 0.1) must stay close to 4 L for the walk to cross many chunks
         pts = draw(randomwalk(L))
     else:
-        pts = draw(G.point_sets(L, nmin=2, nmax=40, two_lists=False,
-                                families=['cluster', 'seam', 'seam', 'polar', 'pole-exact', 'pole-near', 'allsky', 'lattice', 'chain', 'chain', 'chain']))
+        fam = draw(st.sampled_from(['cluster', 'seam', 'seam', 'polar', 'pole-exact', 'pole-near', 'allsky', 'lattice', 'chain', 'chain', 'chain', 'slice-edge']))
+        if fam == 'slice-edge':
+            L = draw(st.sampled_from([45.0, 30.0, 25.0, 60.0, 52.0, 75.0])) * (1 + 0.02 * draw(G.unitf))
+        pts = draw(G.point_sets(L, nmin=2, nmax=40 if fam != 'slice-edge' else 12, two_lists=False, families=[fam]))
     if pts['family'] == 'allsky':
         L = max(L, 0.5)
     if draw(st.integers(0, 12)) == 0:
@@ -131,7 +133,27 @@ def case_strategy(draw):
         cells = draw(st.lists(st.tuples(st.integers(0, 359), st.integers(-60, 60)), min_size=k, max_size=k, unique=True))
         near = [(min(359, c[0] + draw(st.integers(0, 2))), c[1] + draw(st.integers(0, 2))) for c in cells[:k // 2]]
         pts = dict(family='integer-arrays', ra1=[c[0] for c in cells + near], dec1=[c[1] for c in cells + near])
-    cs = draw(st.sampled_from([None, None, 4.0, 4.0, 6.0, 10.0, 30.0] if pts['family'] not in ('randomwalk', 'polylines') else [4.0, None, 4.0, 5.0, 8.0]))
+    special = draw(st.integers(0, 60))
+    if special == 0:
+        # linking length exactly 0: positions given more than once (bit-identical coordinates) are 0 apart and belong together
+        k = draw(st.integers(1, 6))
+        base = [(G._wrap(180.0 * (1 + draw(G.unitf))), 89.0 * draw(G.unitf)) for _ in range(k)]
+        reps = [base[draw(st.integers(0, k - 1))] for _ in range(draw(st.integers(1, 8)))]
+        allp = list(draw(st.permutations(base + reps)))
+        return dict(family='duplicates-L0', ra=[p[0] for p in allp], dec=[p[1] for p in allp], L=0.0, chunksize=None)
+    if special == 1:
+        # a strip narrow in declination and wide in RA with a small explicit chunk size: more than 32767 RA chunks in a slice
+        L = draw(st.sampled_from([0.002, 0.0015]))
+        k = draw(st.integers(4, 10))
+        ras = [G._wrap(40.0 + 270.0 * i / (k - 1) + 0.5 * L * draw(G.unitf)) for i in range(k)]
+        ras += [G._wrap(r + L * draw(st.sampled_from([0.6, 0.9, 1.2]))) for r in ras[::2]]
+        d0 = draw(st.sampled_from([0.0, 12.0, -33.0]))
+        decs = [d0 + 0.4 * L * draw(G.unitf) for _ in ras]
+        order = draw(st.permutations(list(range(len(ras)))))
+        return dict(family='wide-strip', ra=[ras[i] for i in order], dec=[decs[i] for i in order], L=L, chunksize=4.0 * L)
+    cs = draw(st.sampled_from([None, None, 4.0, 4.0, 6.0, 10.0, 30.0] if pts['family'] not in ('randomwalk', 'polylines', 'slice-edge') else [4.0, None, 4.0, 5.0, 8.0]))
+    if pts['family'] == 'slice-edge':
+        cs = None
     eff = max(4.0 * L, 0.1) if cs is None else cs * L
     safe = G.safe_chunksize(pts['ra1'], pts['dec1'], eff)
     return dict(family=pts['family'], ra=pts['ra1'], dec=pts['dec1'], L=L, chunksize=None if (cs is None and safe == eff) else safe)
@@ -158,7 +180,8 @@ def body(case):
     n = len(ra)
     L = case['L']
     S = G.sepmat(ra, dec, ra, dec)
-    lo = components(~(S > L * (1 - G.REL) - G.ABS))      # links that certainly exist
+    same = (ra[:, None] == ra[None, :]) & (dec[:, None] == dec[None, :])      # bit-identical positions are 0 apart: linked for every L >= 0
+    lo = components(~(S > L * (1 - G.REL) - G.ABS) | same)      # links that certainly exist
     hi = components(~G.above(S, L))                        # links that may exist
     ing, mult, first, nxt = call(spheregroup, ra, dec, L, chunksize=case['chunksize'])
     with judge('partition'):
@@ -217,7 +240,7 @@ def body(case):
 
 def classify(case):
     return ['family:' + case['family'], 'chunksize:' + ('default' if case['chunksize'] is None else 'explicit'),
-            'n:%d' % (10 * (len(case['ra']) // 10)), 'L:1e%d' % math.floor(math.log10(case['L']))]
+            'n:%d' % (10 * (len(case['ra']) // 10)), 'L:1e%d' % math.floor(math.log10(case['L'])) if case['L'] > 0 else 'L:0']
 
 
 def nontrivial(case, labels):
